@@ -156,13 +156,54 @@ def run(ctx):
                 violations.append({"what": "after the %s of a library-made copy failed once with %s, %s holds %s: not a complete value" % (call, er, f[0], f[7]),
                                    "classification": {"kind": "partial-final-under-fault", "call": call, "situation": pre},
                                    "replay": {"kind": "fault", "scenario": L, "fault_seq": seq, "errno": er}})
+    # a value that lives on another filesystem (the publishing rename / link answers EXDEV): whatever
+    # the library does about it, it never builds the value IN PLACE under the key's name - a file
+    # that lookups can open is never created empty, truncated or written to
+    xjobs = []
+    for w in (("plain", 300), ("sharded", 4, 1200)):
+        for opn in ("set", "put"):
+            for pre in ("present", "absent"):
+                L = G.header(w, (), "none")
+                if pre == "present":
+                    L.append(G.plant(G.key_path(w, "w", KEYC), K.BIG1))
+                else:
+                    L.append("mkdir " + G.key_path(w, "w", KEYC).rsplit("/", 1)[0])
+                L += [G.NOFIRE, G.op(0, opn, KEYC, K.BIG2, 3), G.NOFIRE, G.op(0, "get", KEYC), "snap"]
+                clean = S.run_impl(L)
+                if not clean.steps:
+                    continue
+                can, seqs = T.canon(clean.steps[0]["events"], with_seq=True)
+                for k, t in enumerate(can):
+                    if t[0] in ("rename", "link"):
+                        xjobs.append((w, opn, pre, L, seqs[k], k))
+    for w, opn, pre, L, seq, k in xjobs:
+        try:
+            impl = S.run_impl(L, fault=(seq, "EXDEV"))
+        except Exception as ex:
+            ties.append({"what": "cross-filesystem run failed", "detail": repr(ex)}); continue
+        if not impl.steps:
+            continue
+        for e in impl.steps[0]["events"]:
+            pth = str(e.get("path", ""))
+            named = pth.startswith("w/") and ".kismet_temp" not in pth and pth.rsplit("/", 1)[-1] == KEYC[0]
+            if named and not e.get("err") and (e["call"] in ("create", "creat", "write", "copy", "truncate", "ftruncate") or (e["call"] == "open" and str(e.get("flags", e.get("arg", ""))).upper().find("TRUNC") >= 0)):
+                violations.append({"what": "when the publishing %s answers EXDEV, %s builds the value in place: %s on %s - a concurrent lookup can open a partial value" % (can[k][0] if False else "call", opn, e["call"], pth),
+                                   "classification": {"kind": "written-in-place", "op": opn, "pre": pre},
+                                   "replay": {"kind": "fault", "scenario": L, "fault_seq": seq, "errno": "EXDEV", "trace": [T.fmt(t) for t in T.canon(impl.steps[0]["events"])][:60]}})
+                break
+        for st in sorted(impl.results):
+            cls, d = S.fields(impl.results[st][1])
+            if cls == "OkSome" and d.get("content") not in complete:
+                violations.append({"what": "after a publication answered EXDEV, a handle for the key reads %s" % d.get("content"),
+                                   "classification": {"kind": "partial-read-under-fault", "call": "rename/link", "situation": "exdev"},
+                                   "replay": {"kind": "fault", "scenario": L, "fault_seq": seq, "errno": "EXDEV"}})
     seen, uniq = set(), []
     for v in violations:
         k = tuple(sorted(v["classification"].items()))
         if k not in seen:
             seen.add(k); uniq.append(v)
-    cov = {"evaluations": len(res) + len(fres) + len(cjobs), "copy_fault_runs": len(cjobs), "distinct_nontrivial": nontriv, "lookup_fault_runs": len(fres),
-           "rule": "families {set|get, set|set, put|put, put|set, ensure|ensure, ensure|set, touch|set, promotion from a secondary cache|get, promotion|promotion, get_or_update Replace|get, maintenance (capacity exceeded, trigger firing)|get, |set, |maintenance} x front-end {plain, sharded} with multi-chunk values of 5000 and 7000 bytes: for EVERY filesystem-call boundary of every participant, a context switch to the other participant(s) which run to completion (thorough: two switches at every pair of boundaries, three participants, random schedules). Oracles: every returned handle reads a complete value of its key, at return and again after the others ran; at every scheduling point every key-named file on disk is complete and read-only; final tree likewise; each schedule replayed on the pool model and compared; plus lookups of a not-yet-marked hit whose bookkeeping calls fail (EPERM as for a reader that does not own the file): the handle still yields the whole value; plus promotion / population copies with each read, write or copy call failing once (ENOSPC, EIO): every handle obtained afterwards and every key-named file is complete. Non-trivial = at least two context switches.",
+    cov = {"evaluations": len(res) + len(fres) + len(cjobs) + len(xjobs), "copy_fault_runs": len(cjobs), "cross_filesystem_runs": len(xjobs), "distinct_nontrivial": nontriv, "lookup_fault_runs": len(fres),
+           "rule": "families {set|get, set|set, put|put, put|set, ensure|ensure, ensure|set, touch|set, promotion from a secondary cache|get, promotion|promotion, get_or_update Replace|get, maintenance (capacity exceeded, trigger firing)|get, |set, |maintenance} x front-end {plain, sharded} with multi-chunk values of 5000 and 7000 bytes: for EVERY filesystem-call boundary of every participant, a context switch to the other participant(s) which run to completion (thorough: two switches at every pair of boundaries, three participants, random schedules). Oracles: every returned handle reads a complete value of its key, at return and again after the others ran; at every scheduling point every key-named file on disk is complete and read-only; final tree likewise; each schedule replayed on the pool model and compared; plus lookups of a not-yet-marked hit whose bookkeeping calls fail (EPERM as for a reader that does not own the file): the handle still yields the whole value; plus promotion / population copies with each read, write or copy call failing once (ENOSPC, EIO): every handle obtained afterwards and every key-named file is complete; plus path-based set / put whose publishing rename / link answers EXDEV: no file is created, truncated or written under the key's own name. Non-trivial = at least two context switches.",
            "samples": [{"family": f["name"], "kind": k} for f, k, *_ in res[:3]], "traces_validated_against_impl": agree,
            "schedule_kinds": kinds, "scheduling_points_inspected": points, "handles_read": reads}
     if not ctx.quick():
